@@ -34,6 +34,13 @@ fn decode(tape: &[u32]) -> Case {
     let mut fb = gen_feedback(&mut t, &input, &o, true, true);
     if let LayerSpec::Feedback { loops, layers, .. } = &mut fb {
         *loops = t.usize(1, 4);
+        // one spatial block in five is a shrinking / growing pair (a max-pool inside the block, first or last)
+        if input.len() == 3 && input[1] >= 2 && input[2] >= 2 && t.chance(1, 5) {
+            let c = input[0];
+            let pool = LayerSpec::Pool { kernel: (2, 2), stride: (1, 1) };
+            let deconv = LayerSpec::Deconv { cfg: crate::refmodel::ConvCfg { filters: c, kernel: (2, 2), stride: (1, 1), padding: (0, 0), dilation: (1, 1) }, act: gen_act(&mut t, &o), dropout: None };
+            *layers = if t.bool() { vec![pool, deconv] } else { vec![deconv, pool] };
+        }
         if let Some(n) = wide {
             // narrow waist, so that the cost stays linear in the width
             *layers = vec![
@@ -82,6 +89,11 @@ fn check(case: &Case, ev: &mut CaseEv) -> CheckResult {
     ev.class(format!("loops{}", loops));
     ev.class(format!("skips:in={},out={}", inskips, outskips));
     ev.class(if spec.input.len() == 3 { "spatial block" } else { "flat block" });
+    if let Some(LayerSpec::Pool { .. }) = inner.first() {
+        ev.class("block starting with a max-pool");
+    } else if inner.iter().any(|l| matches!(l, LayerSpec::Pool { .. })) {
+        ev.class("block containing a max-pool");
+    }
     if spec.input.len() == 1 && spec.input[0] > 64 {
         ev.class(if spec.input[0] > 1024 { "wide flat block (> 1024 elements)" } else { "wide flat block (65-300 elements)" });
     }
@@ -191,7 +203,7 @@ impl Prop for C11 {
         t.pick(400_000, 30_000_000)
     }
     fn rule(&self) -> String {
-        "tape-decoded feedback block: flat (dense n -> n or n -> m -> n, n 1..6; one case in 40 with n 65..300 and one in 600 with n 1025..2100, narrow waist) or spatial (1-2 shape-preserving convolution / deconvolution layers on c 1-3 x h,w 1-5), loops 1..4, the four skip-flag combinations, the five accumulations, followed or not by a dense layer, tied distinct weights set through the hooks, random inputs. Oracle: r1 = F(x), ri = F(acc(r(i-1); x)) with input skips else F(r(i-1)); output acc(rL; r1..r(L-1)) with output skips else rL; flattened when a dense layer follows - composed from the library's own single-layer forwards (the accumulations are computed by the harness element-wise); compared to predict within 2 ulp (bit-identical on the current tree). Non-trivial: loops >= 2 or a skip flag set. Distinct = full block specification.".into()
+        "tape-decoded feedback block: flat (dense n -> n or n -> m -> n, n 1..6; one case in 40 with n 65..300 and one in 600 with n 1025..2100, narrow waist) or spatial (1-2 shape-preserving convolution / deconvolution layers on c 1-3 x h,w 1-5; one in five: a 2x2 max-pool + 2x2 deconvolution pair in either order), loops 1..4, the four skip-flag combinations, the five accumulations, followed or not by a dense layer, tied distinct weights set through the hooks, random inputs. Oracle: r1 = F(x), ri = F(acc(r(i-1); x)) with input skips else F(r(i-1)); output acc(rL; r1..r(L-1)) with output skips else rL; flattened when a dense layer follows - composed from the library's own single-layer forwards (the accumulations are computed by the harness element-wise); compared to predict within 2 ulp (bit-identical on the current tree). Non-trivial: loops >= 2 or a skip flag set. Distinct = full block specification.".into()
     }
     fn run_case(&self, tape: &[u32], ev: &mut CaseEv) -> CheckResult {
         check(&decode(tape), ev)
